@@ -33,7 +33,8 @@ fn decode(tape: &[u32]) -> Case {
     let softmax = t.bool();
     let obj = rm::OBJS[t.pick(7)];
     let prob = matches!(obj, ObjK::CE | ObjK::BCE | ObjK::KL);
-    let out = t.usize(1, 5);
+    // one case in 25 has a wide output layer (17..130 components: arg-max / fraction rules over long vectors)
+    let out = if t.chance(1, 25) { t.usize(17, 130) } else { t.usize(1, 5) };
     let act = if softmax { ActK::Softmax } else if prob { ActK::Sigmoid } else { [ActK::Linear, ActK::Tanh, ActK::Sigmoid][t.pick(3)] };
     spec.layers.push(LayerSpec::Dense { out: if softmax { out.max(2) } else { out }, act, bias: t.bool(), dropout: None });
     let tol = [0.0f32, 1e-6, 1e-3, 0.1, 1.0, 1e30][t.pick(6)];
@@ -261,7 +262,7 @@ impl Prop for C12 {
         Some(3)
     }
     fn rule(&self) -> String {
-        "tape-decoded network (1-2 generated layers of any kind incl. feedback blocks + a final dense layer with soft-max or another activation; in one case of four the output activation is changed afterwards with set_activation; in one case of three up to three skip connections, chains included, are added), objective of 7, tolerance in {0, 1e-6, 1e-3, 0.1, 1, 1e30}, N in {1, 2, 63, 64, 65, 127, 128, 129, 200} or random 1..300; targets derived from the predictions so that components lie exactly on / at the tolerance / inside / outside it and one-hot or soft (peak often below 0.5) targets agree or disagree with the arg-max; inputs independent O(1), or (1/8) a fine sweep with consecutive inputs a few ulp apart, or (1/8) of magnitude 1e-6. Oracle from public pieces: loss = mean of objective(predict(x), t) (order-free tolerance), accuracy interval by the stated rule (components at exactly the tolerance and arg-max ties may count either way), predict_batch[i] == predict(x_i) bitwise in order, predict == last activation of forward. Non-trivial: N > 64, N mod 64 != 0 and both scoring outcomes present. Distinct = (architecture, objective, tolerance, N).".into()
+        "tape-decoded network (1-2 generated layers of any kind incl. feedback blocks + a final dense layer (1-5 outputs, one case in 25: 17-130) with soft-max or another activation; in one case of four the output activation is changed afterwards with set_activation; in one case of three up to three skip connections, chains included, are added), objective of 7, tolerance in {0, 1e-6, 1e-3, 0.1, 1, 1e30}, N in {1, 2, 63, 64, 65, 127, 128, 129, 200} or random 1..300; targets derived from the predictions so that components lie exactly on / at the tolerance / inside / outside it and one-hot or soft (peak often below 0.5) targets agree or disagree with the arg-max; inputs independent O(1), or (1/8) a fine sweep with consecutive inputs a few ulp apart, or (1/8) of magnitude 1e-6. Oracle from public pieces: loss = mean of objective(predict(x), t) (order-free tolerance), accuracy interval by the stated rule (components at exactly the tolerance and arg-max ties may count either way), predict_batch[i] == predict(x_i) bitwise in order, predict == last activation of forward. Non-trivial: N > 64, N mod 64 != 0 and both scoring outcomes present. Distinct = (architecture, objective, tolerance, N).".into()
     }
     fn run_case(&self, tape: &[u32], ev: &mut CaseEv) -> CheckResult {
         check(&decode(tape), ev)
